@@ -1172,7 +1172,6 @@ func checkRetentionDepth(p *load.Program, r *kit.Report, rule string) {
 	}
 }
 
-
 // sampleElem: the list element a sample value was taken from — `list[i]` holding a pointer
 // (load of the element address) or the struct itself (the element address, or a copy loaded from it).
 func sampleElem(base ssa.Value) *ssa.IndexAddr {
